@@ -227,7 +227,7 @@ class C14(Prop):
     level_note = ('File stems are unique per tree so that every discovered file has a dotted name that resolves to it '
                   '(a precondition of Python\'s import system); ASCII names, no symlinks; -s/--package not generated here (C03 does).')
     rule = ('Hypothesis trees (depth <=3, 0..4 files and 0..3 sub-directories per directory from identifier/odd/ignored '
-            'name pools), 5 tests-patterns x 4 file-patterns, root modes none/dup/nested/dup+nested/test-path-dup, '
+            'name pools), 6 tests-patterns x 5 file-patterns, root modes none/dup/nested/dup+nested/test-path-dup, '
             'optional -m patterns, two scandir permutations + creation permutation. Non-trivial = files excluded by >=2 '
             'different rules AND overlapping roots AND >=1 module discovered.')
     assumptions = ('"sorted by path" is read as: independent of enumeration order, ascending inside a directory, '
